@@ -27,12 +27,12 @@ import (
 // ---- keys -----------------------------------------------------------------
 
 type c51Key struct {
-	ID   string
-	Kty  string // "oct" | "RSA" | "EC"
-	Oct  []byte
-	RSA  *rsa.PrivateKey
-	EC   *ecdsa.PrivateKey
-	Crv  string
+	ID  string
+	Kty string // "oct" | "RSA" | "EC"
+	Oct []byte
+	RSA *rsa.PrivateKey
+	EC  *ecdsa.PrivateKey
+	Crv string
 }
 
 type c51Keys struct {
